@@ -762,6 +762,17 @@ func checkTTHDecode(c TTHFrameCase, cv *cov) *evid.Violation {
 	}
 	// the exported magic predicates look at bytes 4..7 only: any prefix of at least 8 bytes must give the
 	// same answer, and that answer is "bytes 4 and 5 are 0x10 0x00" (and, for IsStreaming, flag bit 1)
+	// IsStreaming guards its own length: every prefix shorter than 8 bytes must be answered (with anything) and
+	// not panic; in guard-page memory, so that a read beyond the prefix faults
+	for k := 0; k < 8 && k <= len(in); k++ {
+		ar := guard.Get(k)
+		pre := ar.Right(in[:k])
+		p, st := safeFault(func() { _ = ttheader.IsStreaming(pre) })
+		guard.Put(ar)
+		if p != nil {
+			return &evid.Violation{Msg: fmt.Sprintf("IsStreaming panicked on the %d-byte prefix %s: %v", k, hx(in[:k]), p), Stack: st}
+		}
+	}
 	if len(in) >= 8 {
 		wantMagic := in[4] == 0x10 && in[5] == 0x00
 		wantStreaming := wantMagic && in[7]&0x02 != 0
